@@ -83,16 +83,19 @@ func c13(e *Env) {
 					continue
 				}
 				s := xs.InFunc(tp, rt.Results[0])
-				fl := s.Flat()
-				body := fl[len(fl)-1]
-				steps, inner := replaceChain(body)
-				if len(steps) != 1 || !steps[0].all || !(inner.Op == "field" && strings.HasSuffix(inner.Name, ".path")) {
-					obEnc.Fail(e.where(rt), "TempPath is not ReplaceAll(path, \"../\", <parent placeholder>): "+trunc(s.String(), 160))
-					continue
-				}
-				encParentFrom, encParentTo = steps[0].from, steps[0].to
-				if len(fl) == 2 && fl[0].Op == "lit" {
-					encRoot = fl[0].Lit
+				// one return per case, or one return of a value chosen before: every alternative is examined
+				for _, alt := range s.Alts(8) {
+					fl := alt.Flat()
+					body := fl[len(fl)-1]
+					steps, inner := replaceChain(body)
+					if len(steps) != 1 || !steps[0].all || !(inner.Op == "field" && strings.HasSuffix(inner.Name, ".path")) {
+						obEnc.Fail(e.where(rt), "TempPath is not ReplaceAll(path, \"../\", <parent placeholder>): "+trunc(s.String(), 160))
+						continue
+					}
+					encParentFrom, encParentTo = steps[0].from, steps[0].to
+					if len(fl) == 2 && fl[0].Op == "lit" {
+						encRoot = fl[0].Lit
+					}
 				}
 			}
 		}
@@ -102,6 +105,13 @@ func c13(e *Env) {
 		} else if obEnc.Sites == 0 {
 			obEnc.Fail(core.FuncName(tp), fmt.Sprintf("encoder pairs not recognised: parent %q→%q, root prefix %q", encParentFrom, encParentTo, encRoot))
 		}
+	}
+	// the placeholder strings themselves: by their constants, or (renamed / inlined constants) from the encoder
+	if parentPH == "" {
+		parentPH = encParentTo
+	}
+	if rootPH == "" {
+		rootPH = encRoot
 	}
 	// ---- decoder: destination of the extra-file rename
 	obDec := r.Ob("R1", "decoder:inverse-of-encoder", "the decoder for extra files strips the `<temp dir>/` prefix (prefix replace, once), maps `<root placeholder>/`→`/` (once) and every `<parent placeholder>`→`../`: the inverse of the encoder")
